@@ -366,6 +366,7 @@ for _k, _v in ADDED_B16.items():
     CLAIMED[_k]["text"] = CLAIMED[_k]["text"] + " " + _v
 
 ADDED_B17 = {
+    "C03": "Added after the seventeenth batch: C03.24 a parseAfterValidation method that asks several child validators to parse the SAME input combines their results with the module's deep merge, never with an object spread / Object.assign (found and guards fix 739e3a7: `{a: {x: string}} & {a: {y: number}}` parsed `{a: {x, y}}` to `{a: {y}}`, executed under node before and after).",
     "C01": "Added after the seventeenth batch: C01.3 also reads the single-pass form whose table is one string constant (`SPECIAL.contains(c)`) and names the missing character; C01.29 (= C07.18) a member is taken out of a union accumulator only by a payload-precise pattern; C01.20 no longer counts the recursive descent into the general converter as a consultation of the engine.",
     "C04": "Added after the seventeenth batch: C04.14 a comparator handed to a standard sort (closure and the Ordering-valued compiler functions it calls) contains no if / match - the standard sort panics on an inconsistent comparator once the slice has more than 20 elements; C04.13 reads the non-panicking refusal of a set-once setter and demands that the refusal mark is tested by a function that leaves when it is set (guards fix 76e8a71: a second default export panicked in the binder; now an error of the module).",
     "C05": "Added after the seventeenth batch: C05.13 excludes routes back through the region's own function when it decides whether a callee contains the engine call, and accepts a memo read as an engine answer only when the table is filled with engine answers alone and its key covers both operands of the question (the report names the uncovered operand).",
